@@ -84,6 +84,47 @@ fn profile(name: &str) -> RawCfg {
             prefill_bytes: 100,
             ..base
         },
+        // crash exploration: two flushed regions, then appends / relocations / removals / flushes
+        "crash2" => RawCfg {
+            names: 3,
+            sizes: vec![100, 9000],
+            kinds: kinds(&["create", "write", "remove", "flush", "region_flush", "compact"]),
+            prefill: 2,
+            prefill_bytes: 100,
+            ..base
+        },
+        "crash3" => RawCfg {
+            names: 3,
+            sizes: vec![5000],
+            kinds: kinds(&["create", "write", "remove", "rename", "flush", "compact"]),
+            prefill: 3,
+            prefill_bytes: 100,
+            ..base
+        },
+        "crash_fresh" => RawCfg {
+            names: 2,
+            sizes: vec![100, 9000],
+            kinds: kinds(&["create", "write", "remove", "flush"]),
+            ..base
+        },
+        "crash_edit" => RawCfg {
+            names: 2,
+            sizes: vec![100],
+            at_sizes: vec![50, 5000],
+            offs: vec![Off::Zero, Off::Mid],
+            kinds: kinds(&["write", "write_at", "truncate", "truncate_write", "rename", "flush", "region_flush"]),
+            prefill: 2,
+            prefill_bytes: 3000,
+            ..base
+        },
+        "crash_compact" => RawCfg {
+            names: 3,
+            sizes: vec![5000],
+            kinds: kinds(&["create", "write", "truncate", "remove", "flush", "compact"]),
+            prefill: 3,
+            prefill_bytes: 5000,
+            ..base
+        },
         // positional writes and truncations
         "edit" => RawCfg {
             names: 2,
@@ -322,6 +363,78 @@ pub const RULE: &str = "breadth-first over all operation histories of each profi
 pub fn worker(spec: &str) {
     let cfg = profile(spec);
     seqx::worker_loop::<RawSys>(&cfg, &format!("rawx-w-{spec}"));
+}
+
+pub fn crash_worker(spec: &str) {
+    let cfg = profile(spec);
+    seqx::worker_loop::<crate::crashx::CrashSys>(&cfg, &format!("crashx-w-{spec}"));
+}
+
+/// (profile, depth) of the crash-image exploration per property and tier.
+fn crash_plan(property: &str, tier: &str) -> Vec<(&'static str, usize)> {
+    let quick = tier == "quick";
+    match property {
+        "C05" => {
+            if quick {
+                vec![("crash2", 3), ("crash_fresh", 4)]
+            } else {
+                vec![("crash2", 5), ("crash3", 4), ("crash_fresh", 6), ("crash_edit", 4)]
+            }
+        }
+        "C12" => {
+            if quick {
+                vec![("crash_compact", 3)]
+            } else {
+                vec![("crash_compact", 5), ("crash3", 4)]
+            }
+        }
+        _ => vec![],
+    }
+}
+
+pub fn add_crash(run: &mut Run, kf: &KnownFindings, property: &str, tier: &str, wall: u64) {
+    let classify = kf.classifier(property);
+    let plan = crash_plan(property, tier);
+    let t0 = std::time::Instant::now();
+    let n = plan.len();
+    for (i, (pname, depth)) in plan.into_iter().enumerate() {
+        let left = wall.saturating_sub(t0.elapsed().as_secs()).max(1);
+        let per = Duration::from_secs(left / (n - i) as u64 + 1);
+        let cfg = profile(pname);
+        let mut rep = seqx::explore::<crate::crashx::CrashSys>(
+            &cfg,
+            "crashx",
+            pname,
+            &Limits {
+                max_depth: depth,
+                wall: per,
+                max_states: 20_000_000,
+            },
+            &classify,
+        );
+        eprintln!(
+            "  [crashx {pname} depth {}/{depth}] states={} transitions={} images={:?} found={} cap={:?}",
+            rep.depth_completed,
+            rep.states,
+            rep.transitions,
+            rep.counters.iter().filter(|(k, _)| k.starts_with("images")).collect::<Vec<_>>(),
+            rep.found.len(),
+            rep.cap_hit
+        );
+        for f in rep.found.iter_mut() {
+            f.shown.insert(0, format!("engine=crashx profile={pname}"));
+        }
+        let first = run.found.len();
+        absorb(run, &format!("crashx/{pname}"), &rep);
+        for (_, payload) in run.found[first..].iter_mut() {
+            *payload = json!({"engine": "crashx", "profile": pname});
+        }
+    }
+    run.assumptions.extend([
+        "crashx: 4 KiB page writes are atomic; file-length changes are durable immediately and in order; a punch is a zero-page write".to_string(),
+        "crashx: data pages are varied one at a time around the all-old and all-new images (independence reduction, DESIGN 3.3), only pages inside the contents of a decodable slot; the regions file is enumerated as a full product (<= 6 dirty slots)".to_string(),
+        "crashx: tap completeness is checked after every step (modelled page cache == real files)".to_string(),
+    ]);
 }
 
 pub fn replay(doc: &serde_json::Value) -> i32 {
